@@ -15,19 +15,25 @@ class Unsupported(Exception):
     """the executor met something it has no semantics for -> the obligation is inconclusive (exit 2)"""
 
 
+class NeedConcrete(Exception):
+    """a place expression indexes with a symbolic integer: the block loop forks over its feasible values"""
+    def __init__(self, alloc, iv, n):
+        self.alloc, self.iv, self.n = alloc, iv, n
+
+
 class BoundHit(Exception):
     """a stated bound (steps, depth, paths) was exceeded -> inconclusive unless the obligation handles it"""
 
 
 class State:
-    __slots__ = ('heap', 'conds', 'nalloc', 'env', 'steps')
+    __slots__ = ('heap', 'conds', 'nalloc', 'env', 'steps', '_resume_at')
 
     def __init__(self):
-        self.heap = {}; self.conds = []; self.nalloc = 0; self.env = {}; self.steps = 0
+        self.heap = {}; self.conds = []; self.nalloc = 0; self.env = {}; self.steps = 0; self._resume_at = 0
 
     def clone(self):
         s = State.__new__(State)
-        s.heap = dict(self.heap); s.conds = list(self.conds); s.nalloc = self.nalloc; s.env = dict(self.env); s.steps = self.steps
+        s.heap = dict(self.heap); s.conds = list(self.conds); s.nalloc = self.nalloc; s.env = dict(self.env); s.steps = self.steps; s._resume_at = 0
         return s
 
     def alloc(self, v=UNINIT):
@@ -235,8 +241,20 @@ class Executor:
             if st.steps > self.max_steps:
                 raise BoundHit(f'step bound {self.max_steps} in {fn.name}')
             stmts, term = self.pb.get(fn, bb)
-            for s in stmts:
-                self._stmt(fn, s, frame, st)
+            try:
+                start = getattr(st, '_resume_at', 0); st._resume_at = 0
+                for si in range(start, len(stmts)):
+                    cur_si = si
+                    self._stmt(fn, stmts[si], frame, st)
+            except NeedConcrete as nc:
+                # fork over the feasible concrete values of the index and re-run this block from the offending statement
+                for s2, kv in list(self.concretize(st, nc.iv, 0, max(nc.n - 1, 0))):
+                    if kv is None:
+                        yield s2, 'panic', 'index out of bounds'; continue
+                    s2.heap[nc.alloc] = Int(kv, nc.iv.ty)
+                    s2._resume_at = cur_si
+                    yield from self._run_block(fn, bb, frame, s2, depth)
+                return
             k = term[0]
             if k == 'return':
                 yield st, 'ret', st.heap[frame['_0']]; return
@@ -363,6 +381,9 @@ class Executor:
             iv = st.heap[frame[p[2]]]
             c = iv.concrete() if isinstance(iv, Int) else None
             if c is None:
+                if isinstance(iv, Int):
+                    cont = st.read(a, path)
+                    raise NeedConcrete(frame[p[2]], iv, len(cont.items) if hasattr(cont, 'items') else 0)
                 raise Unsupported(f'symbolic index in place in {fn.name}')
             return a, path + (c,)
         if k == 'constidx':
